@@ -95,6 +95,12 @@ Proof. intros c. destruct c; exact I. Qed.
 Theorem C06_source_has_no_blocking_primitive : Constants.BLOCKING_PRIMITIVES = nil.
 Proof. exact no_blocking_primitive. Qed.
 
+(** "No retry-until loops": the unbounded loops ([loop], [while]) of the non-test
+    source, regenerated from /repo on every run, are exactly the one the model
+    accounts for - the trigger's redraw of a zero random value. *)
+Theorem C06_source_has_no_other_unbounded_loop : Constants.UNBOUNDED_LOOPS = ["trigger.rs:loop"%string].
+Proof. exact the_unbounded_loops. Qed.
+
 (** Non-vacuity: two participants looking up the same key of a populated
     directory, interleaved call by call; both finish, each with 3 calls. *)
 Definition ex_fs : fs :=
